@@ -85,6 +85,7 @@ type world struct {
 	ratio     int  // as the trace carries it (hugeSpec for "no limit")
 	barrier   *barrier
 	lastRunOK int
+	stalled   string // a batch item that parked outside the map mutex for good
 }
 
 func (wd *world) key(k int) interface{} {
@@ -115,6 +116,7 @@ func (wd *world) key(k int) interface{} {
 }
 
 var mixCounter int
+var stalls int // batches in which an item parked outside the map mutex for good
 
 type reply struct {
 	w   *semap.Weighted
@@ -158,7 +160,7 @@ func (wd *world) applicable(a act) bool {
 		return false
 	}
 	if a.Op == "batch" || a.Op == "race" {
-		return len(a.As) >= 2
+		return len(a.As) >= 2 && stalls < 3 // (every stall costs the full wait: three say it all)
 	}
 	if a.P < 1 || a.P > len(wd.ps) {
 		return false
@@ -284,8 +286,17 @@ func (wd *world) batch(a act) {
 		deadline := time.Now().Add(10 * time.Second)
 		for wd.x.WaitState(it.P) != "sync.Mutex.Lock" {
 			if time.Now().After(deadline) {
+				st := wd.x.WaitState(it.P)
 				unlock()
-				tr.Fatal("batch item %v never reached the map mutex (state %q)", it, wd.x.WaitState(it.P))
+				if st == "running" || st == "runnable" || st == "" {
+					tr.Fatal("batch item %v never reached the map mutex (state %q)", it, st)
+				}
+				// parked somewhere else for good (a cancelled waiter that does not leave its wait, a call
+				// that blocks before its critical section): what the code under test did, not a fault of
+				// the harness - an event of a kind the specification does not know, and nothing more here
+				wd.stalled, wd.dead = fmt.Sprintf("%s p%d: %s", it.Op, it.P, st), true
+				stalls++
+				return
 			}
 			runtime.Gosched()
 		}
@@ -315,6 +326,9 @@ func (wd *world) obs(a act) tr.E {
 	for k := 1; k <= wd.nkeys; k++ {
 		present, cur, waiters := semap.VerifKeyState(wd.m, wd.key(k))
 		keys[k-1] = tr.E{"present": present, "cur": specCur(curRatio, cur), "waiters": waiters}
+	}
+	if wd.stalled != "" {
+		return tr.E{"ev": "stall", "what": wd.stalled, "st": st}
 	}
 	if a.Op == "run" {
 		return tr.E{"ev": "run", "a": a.rec(), "n": a.N, "ok": wd.lastRunOK, "st": st, "keys": keys, "entries": semap.VerifEntries(wd.m)}
